@@ -28,7 +28,7 @@ import (
 
 func c11cases(tier string) int {
 	if tier == "thorough" {
-		return 800
+		return 360
 	}
 	return 240
 }
@@ -178,7 +178,7 @@ func c11run(c *runner.Ctx) runner.Result {
 	B := boundCandidates(all, h, rq, 24)
 	npairs := c11pairs(c.Tier)
 	kinds := map[string]bool{}
-	nonEmpty, empty := 0, 0
+	nonEmpty, empty, wide := 0, 0, 0
 	for q := 0; q < npairs; q++ {
 		var p c11pair
 		aimed := false
@@ -188,9 +188,15 @@ func c11run(c *runner.Ctx) runner.Result {
 		if !aimed {
 			for try := 0; ; try++ {
 				p = c11drawPair(rq, B)
+				if h.costly() && p.e-p.s > wideSpan && wide >= 4 && try <= 50 {
+					continue // at most 4 year-long scans per case on 1Sec..30Sec buckets
+				}
 				if !h.Variable || !trimTrigger(all, h.D, p.s, p.e) || try > 50 {
 					break
 				}
+			}
+			if p.e-p.s > wideSpan {
+				wide++
 			}
 		}
 		exp := all.Select(idealIdx(all, h.Variable, h.D, p.s, p.e))
